@@ -21,6 +21,7 @@ import (
 	"bytes"
 	"fmt"
 	"math/rand"
+	"net"
 	"sort"
 	"testing"
 	"testing/synctest"
@@ -150,7 +151,7 @@ func vfC14SrcFlood(t *testing.T, k *vfKit, caseID string) {
 		}
 		if r.Intn(6) == 0 { // honest source in the middle of the flood
 			tag++
-			hm := honest.write(tag, vfC14Payload(uint32(tag), 1+r.Intn(1500), 0xc0), caseID)
+			hm := honest.writeSeeded(r, tag, vfC14Payload(uint32(tag), 1+r.Intn(1500), 0xc0), caseID)
 			if hm != nil {
 				rx.register(hm)
 				if rx.wouldBeJudged(hm) {
@@ -341,9 +342,9 @@ func vfC14GlobalFlood(t *testing.T, k *vfKit, caseID string, sh vfC14FloodShape)
 				break
 			}
 		}
-		if tag%16 == 0 {
-			time.Sleep(time.Millisecond) // deadlines differ, so "oldest" is defined
-		}
+		// every entry gets its own creation instant: "the oldest" is then a single entry and the victim
+		// of an eviction does not depend on the map iteration order inside the code under test
+		time.Sleep(time.Microsecond)
 	}
 	k.Count("ev_global_flood_entries", int64(tag))
 	k.Count("ev_global_flood_sources", int64(nSrc))
@@ -490,7 +491,7 @@ func vfC14Pin(t *testing.T, k *vfKit, caseID string) {
 	other := func() {
 		tag++
 		tx := honest[r.Intn(2)]
-		if hm := tx.write(tag, vfC14Payload(uint32(tag), 1+r.Intn(1500), 0xc0), caseID); hm != nil {
+		if hm := tx.writeSeeded(r, tag, vfC14Payload(uint32(tag), 1+r.Intn(1500), 0xc0), caseID); hm != nil {
 			rx.register(hm)
 			if rx.wouldBeJudged(hm) {
 				for _, idx := range r.Perm(hm.Total) {
@@ -576,6 +577,110 @@ func vfC14Pin(t *testing.T, k *vfKit, caseID string) {
 	k.Nontrivial(fmt.Sprintf("%s/%d", caseID, rx.steps))
 }
 
+// vfC14EvictSelf (directed): the table is filled to the global cap so that the OLDEST pending entries
+// belong to chosen sources S1..Sn (each holding `held` entries, inserted first, every entry at its own
+// strictly increasing instant), followed by filler entries from >= 512 other sources (<= 7 each).
+// Then, for each Si in turn and `held` times, Si sends one chunk of a NEW message ID: the entry evicted
+// to make room is Si's own oldest one (victim and inserter coincide). A FULL census (perSource[src] ==
+// pending entries of src for every src, no non-zero perSource key without entries, bounds) runs after
+// every one of these steps. Afterwards everything expires (census again) and every Si must be able to
+// reassemble two interleaved messages (no lock-out by a counter left too high).
+func vfC14EvictSelf(t *testing.T, k *vfKit, caseID string, helds []int) {
+	r := k.Rand(caseID)
+	sal := vfC14NewSal(t)
+	rx := vfC14NewRx(t, k, caseID)
+	defer rx.close()
+	rx.sleep(time.Duration(r.Intn(4000)) * time.Millisecond)
+	base := 3000000 + r.Intn(1000)*10000
+	tag := 0
+	one := func(src net.Addr, id uint8, what string) {
+		tag++
+		m := vfC14Forge(r, sal, tag, src, id, 2+r.Intn(7), 1+r.Intn(300))
+		rx.sources[m.SrcS] = append(rx.sources[m.SrcS], m)
+		idx := r.Intn(m.Total)
+		rx.note(map[string]any{"op": what, "src": m.SrcS, "id": m.ID, "idx": idx, "of": m.Total})
+		if d := rx.raw(m.Wire[idx], src); len(d) != 0 {
+			rx.violation("gecko:delivery-without-complete-set", map[string]any{"msg": m.desc(), "delivered": vfC14Desc(d)},
+				"one chunk of a %d-chunk message arrived; ReadFrom returned %s", m.Total, vfC14Desc(d))
+		}
+		time.Sleep(time.Microsecond) // strictly increasing creation instants
+	}
+	nextID := make([]int, len(helds))
+	entries := 0
+	for i, h := range helds {
+		for j := 0; j < h; j++ {
+			one(vfC14Addr(base+i), uint8(nextID[i]), "self-evict-setup")
+			nextID[i]++
+			entries++
+			rx.census(true)
+		}
+	}
+	// fillers: >= 512 other sources, at most 7 entries each, until the table is exactly at the cap
+	fs := 0
+	for entries < vfC14Global && !rx.failed {
+		n := 1 + r.Intn(7)
+		if left := vfC14Global - entries; left/n < 600-fs { // keep the source count above 512
+			n = 1 + r.Intn(6)
+		}
+		for j := 0; j < n && entries < vfC14Global; j++ {
+			one(vfC14Addr(base+1000+fs), uint8(j*17+fs), "self-evict-filler")
+			entries++
+			rx.census(false)
+		}
+		fs++
+	}
+	k.Count("ev_self_evict_filler_sources", int64(fs))
+	if total, _ := rx.census(true); total != vfC14Global {
+		k.Inconclusive(fmt.Sprintf("%s: table holds %d after the fill (want 4096)", caseID, total))
+		return
+	}
+	for i, h := range helds {
+		for j := 0; j < h && !rx.failed; j++ {
+			_, before := rx.census(true)
+			src := vfC14Addr(base + i)
+			oldest := vfC14Key{src.String(), uint8(j)}
+			one(src, uint8(nextID[i]), "self-evict")
+			nextID[i]++
+			_, after := rx.census(true) // the invariant, in full, right after the coincidence
+			if before[oldest] && !after[oldest] {
+				k.Count("ev_self_evictions", 1) // the victim was the sender's own oldest entry
+			}
+		}
+	}
+	if rx.failed {
+		return
+	}
+	time.Sleep(vfC14Gone + time.Millisecond)
+	synctest.Wait()
+	if total, _ := rx.census(true); total != 0 {
+		rx.violation("gecko:not-forgotten-after-ttl", map[string]any{"pending": total}, "%d entries still pending %v after the last datagram", total, vfC14Gone)
+		return
+	}
+	for i := range helds {
+		src := vfC14Addr(base + i)
+		tag += 2
+		a := vfC14Forge(r, sal, tag-1, src, uint8(200), 2+r.Intn(7), 1+r.Intn(1500))
+		b := vfC14Forge(r, sal, tag, src, uint8(201), 2+r.Intn(7), 1+r.Intn(1500))
+		rx.register(a)
+		rx.register(b)
+		before := k.Counter("ev_messages_delivered")
+		rx.feed(a, 0)
+		rx.feed(b, 0)
+		for idx := 1; idx < a.Total || idx < b.Total; idx++ {
+			if idx < a.Total {
+				rx.feed(a, idx)
+			}
+			if idx < b.Total {
+				rx.feed(b, idx)
+			}
+		}
+		if k.Counter("ev_messages_delivered") == before+2 {
+			k.Count("ev_no_lockout_confirmed", 1)
+		}
+	}
+	k.Nontrivial(fmt.Sprintf("%s/%v", caseID, helds))
+}
+
 func TestVerifC14Bounds(t *testing.T) {
 	k := vfNewKit(t, "C14", "gecko-bounds")
 	defer k.Finish()
@@ -604,6 +709,11 @@ func TestVerifC14Bounds(t *testing.T) {
 	for i := 0; i < k.N(6, 24); i++ {
 		sh := shapes[i%len(shapes)]
 		list = append(list, sc{fmt.Sprintf("global-%d", i), func(t *testing.T, id string) { vfC14GlobalFlood(t, k, id, sh) }})
+	}
+	heldSets := [][]int{{1, 7, 1, 7, 3}, {7, 1, 2, 1}, {1, 1, 1, 1, 1, 1, 1, 1}, {7, 7}}
+	for i := 0; i < k.N(2, 12); i++ {
+		hs := heldSets[i%len(heldSets)]
+		list = append(list, sc{fmt.Sprintf("evictself-%d", i), func(t *testing.T, id string) { vfC14EvictSelf(t, k, id, hs) }})
 	}
 	for i := 0; i < k.N(12, 300); i++ {
 		list = append(list, sc{fmt.Sprintf("pin-%d", i), func(t *testing.T, id string) { vfC14Pin(t, k, id) }})
